@@ -39,7 +39,21 @@ class _PathShim(object):
 class _OsShim(object):
   def __init__(self, world):
     self.path = _PathShim(world)
+    self._w = world
     world.fs_fired = set()
+
+  def access(self, path, mode):
+    """The list file is unreadable (EACCES) for the duration of one reload tick -- injected
+    only while the file is unmodified since it was last loaded, when nobody needs to open it."""
+    import os
+    w = self._w
+    k = int(round((w.r.seconds() - w.t0) / 10.0))
+    for name, lp in w.list_paths.items():
+      if lp == path and (k, name) in w.unreadable and os.path.exists(path) \
+          and os.path.getmtime(path) <= getattr(w, '_mt', {}).get(name, 0.0):
+        w.ctx.fault('list_file_unreadable_at_tick')
+        return False
+    return os.access(path, mode)
 
   def __getattr__(self, name):
     import os
@@ -129,6 +143,7 @@ class IngestWorld(object):
       self.r.callLater(10.0, self.ref_list_tick)
       # file-system fault seam: the list file vanishes between exists() and getmtime()
       self.fs_faults = set((int(k), n) for k, n in self.plan.get('fs_faults', []))
+      self.unreadable = set((int(k), n) for k, n in self.plan.get('unreadable', []))
       rl.os = _OsShim(self)
       # ... and: the file is saved again while the daemon is reading it (the new content
       # appears, with a newer mtime, the moment the daemon has read the last line)
